@@ -367,6 +367,7 @@ pub fn run(a: &Args) {
             "install" => install_case(&mut r, t[1].parse().unwrap(), t[2].parse().unwrap(), t[3] == "true", t[4].parse().unwrap()),
             "entry" => entry_vector(&mut r, t[1].parse().unwrap()),
             "iretq" => crate::c13iret::run(&mut r, a),
+            "entryframe" => { crate::simcpu::init(); crate::c13iret::entry_frames(&mut r, &Args { prop: "C13".into(), tier: "thorough".into(), shard: 0, nshards: 1, replay: None, extra: vec![] }) }
             _ => install_forms(&mut r),
         }
         r.emit();
@@ -401,6 +402,8 @@ pub fn run(a: &Args) {
     if a.shard == 0 {
         crate::c13iret::run(&mut r, a);
     }
+    crate::simcpu::init();
+    crate::c13iret::entry_frames(&mut r, a);
     r.exhaustive = true;
     r.sample("install 14 40 true 0".into());
     r.sample("entry 14 (error code 0x123456789abcdef pushed below the frame)".into());
